@@ -444,3 +444,25 @@ check("C05", "bpfvm",
       "512 bytes are outside the statement's side conditions. Three known "
       "findings (atomic add into packet memory, temporaries below a full "
       "stack, Else after an unconditional exit).")
+
+check("C23", "simos",
+      "explicit-state search over interleavings of real participants on a "
+      "simulated POSIX / bpf / netlink layer under a baton scheduler",
+      "2-3 participants run the real ParallelEtherCat.run (start, one "
+      "get_fmmu_addr, stop), get_ethertype, FMMULock, LockFile and the real "
+      "XDP.attach/detach coroutines on threads under a baton; every "
+      "simulated file-system / lockf / bpf / netlink call is a scheduling "
+      "point (29 per participant); randrange answers (2 ethertypes, 3 FMMU "
+      "slots) are choice points; a participant blocked on a lockf held by "
+      "another is disabled (deadlock = nobody enabled). Quick: 2 "
+      "participants with <= 2 preemptions, a restart space (3 sessions), "
+      "the complete 2- and 3-participant FMMU sub-protocol (55k states, 92k "
+      "executions). Thorough: complete 2-participant space with one crash, "
+      "3 participants with <= 2 preemptions, 2.0M executions. Invariants at "
+      "every state: at most one installer at a time, dispatcher attached "
+      "and the running participants' program table pinned while anyone "
+      "runs, distinct ethertypes, disjoint logical windows.",
+      "lockf, rename, O_EXCL, rmdir are atomic steps of the model (as in "
+      "POSIX), validated by a conformance self-test against a real "
+      "directory. Two known findings (last-leaver race, stale-table "
+      "joiner).")
